@@ -27,19 +27,57 @@ func genSpecCases(prop, tier, out string, sum *Summary, g *Gen, depth int) {
 		docs[i] = genDoc()
 	}
 	docs = append(docs, shapedDocs()...)
-	for id := 1; id <= n; id++ {
+	// integer literals at the limits of the narrower representations a parser may choose for them, in every
+	// position an index can stand: alone, after a pipe, at the head of a right-hand side, in a reference
+	var fixedE []*R
+	if prop == "C01" {
+		for _, v := range edgeIdx {
+			fixedE = append(fixedE, idx(cur(), v), pipe(fld("a"), idx(cur(), v)), proj(PList, fld("b"), idx(cur(), v)), idx(fld("a"), v),
+				call("map", ar(idx(cur(), v)), av(fld("b"))), proj(PList, fld("b"), sub(idx(cur(), v), fld("a"))), mlist(idx(cur(), v), idx(fld("a"), v)))
+			w := v
+			fixedE = append(fixedE, slc(cur(), &w, nil, nil, cur()), slc(fld("a"), nil, &w, nil, cur()), pipe(fld("a"), slc(cur(), &w, nil, nil, cur())))
+		}
+	}
+	if prop == "C01" {
+		// the scope chain: inner bodies that use outer bindings, shadowing at every depth, bindings used under
+		// projections, filters, pipes and multi-selects
+		A, B, C := vr("$a"), vr("$b"), vr("$c")
+		bind := func(n string, e *R) KV { return KV{n, e} }
+		fixedE = append(fixedE,
+			let([]KV{bind("$a", fld("a"))}, let([]KV{bind("$b", fld("b"))}, mlist(A, B))),
+			let([]KV{bind("$a", fld("a"))}, let([]KV{bind("$b", fld("b"))}, let([]KV{bind("$c", fld("k"))}, mlist(A, B, C)))),
+			let([]KV{bind("$a", fld("a"))}, let([]KV{bind("$b", A)}, mlist(A, B))),
+			let([]KV{bind("$a", fld("a"))}, let([]KV{bind("$a", fld("b"))}, mlist(A))),
+			let([]KV{bind("$a", fld("a"))}, mlist(let([]KV{bind("$a", fld("b"))}, A), A)),
+			let([]KV{bind("$a", fld("a")), bind("$b", fld("b"))}, let([]KV{bind("$c", fld("k"))}, proj(PList, B, sub(cur(), mlist(cur(), A, C))))),
+			let([]KV{bind("$a", fld("k"))}, let([]KV{bind("$b", fld("a"))}, filt(fld("b"), cmp("==", cur(), A), cur()))),
+			let([]KV{bind("$a", fld("a"))}, pipe(let([]KV{bind("$b", fld("b"))}, B), mlist(cur(), A))),
+			let([]KV{bind("$a", fld("k"))}, let([]KV{bind("$b", &R{K: KLiteral, Lit: nil})}, mlist(A, B, let([]KV{bind("$a", &R{K: KLiteral, Lit: nil})}, A), A))),
+			let([]KV{bind("$a", fld("a"))}, mhash(KV{"p", let([]KV{bind("$b", fld("b"))}, mlist(A, B))}, KV{"q", A})),
+			let([]KV{bind("$a", fld("a"))}, call("map", ar(let([]KV{bind("$b", cur())}, mlist(A, B))), av(fld("b")))))
+	}
+	gl := &Gen{Lets: true, letBias: true, Funcs: g.Funcs}
+	for id := 1; id <= n+len(fixedE); id++ {
 		e := g.expr(depth)
+		if id > n {
+			e = fixedE[id-n-1]
+		} else if prop == "C01" && id%12 == 0 {
+			e = gl.expr(depth) // let-bindings are part of the core language: nested and shadowing lets
+		}
 		text := unparse(e)
 		doc := docs[rng.Intn(len(docs))]
-		if rng.Intn(4) == 0 {
+		if id > n {
+			doc = map[string]any{"a": []any{json.Number("1"), json.Number("2"), json.Number("3")}, "b": []any{[]any{"x", "y"}, []any{"z"}, "s"}}
+			if id%2 == 0 {
+				doc = []any{"p", "q", "r"}
+			}
+		} else if rng.Intn(4) == 0 {
 			doc = genDoc()
 		} else if rng.Intn(5) > 0 {
 			// a document on which the expression selects something: synthesised from the
 			// expression's paths, or the best of a few pool documents
-			doc = docFor(e)
-			if outcomeScore(search(text, doc)) < 4 {
-				doc = fitDoc(text, append([]any{docFor(e), docFor(e), docFor(e)}, docs...), doc)
-			}
+			cands := []any{docFor(e), docFor(e), docFor(e), docFor(e)}
+			doc = fitDoc(text, append(cands[1:], docs...), cands[0])
 		}
 		if hasEnum(e) && orderSensitive(e) && !buildsObjects(e) {
 			// objects with at most one member enumerate in one order only: the position or
@@ -154,8 +192,14 @@ func outcomeScore(o Obs) int {
 // the best of a few candidate documents for this expression (ties keep the first)
 func fitDoc(text string, pool []any, fallback any) any {
 	best, bestScore := fallback, outcomeScore(search(text, fallback))
+	// the candidates are drawn before any of them is tried: what the code under test returns must not
+	// change how much of the PRNG stream is used, or one seed would not be one run
+	var picks [8]int
+	for i := range picks {
+		picks[i] = rng.Intn(len(pool))
+	}
 	for i := 0; i < 8 && bestScore < 5; i++ {
-		d := pool[rng.Intn(len(pool))]
+		d := pool[picks[i]]
 		if i < 3 && i < len(pool) {
 			d = pool[i]
 		}
